@@ -1,5 +1,5 @@
 """C03 - halt is defeat: a compiled program never halts"""
-import suites
+import dump_ast, suites
 from props.common import TRUSTED_BASE, ASSUMPTIONS as _A
 
 ID = 'C03'
@@ -28,6 +28,25 @@ def run(ctx):
     jobs += [('shd_%s_%s' % (tag, a[0]), src, a, 2, 200, False, 300000) for tag, src, a in gen_special.shared_defeat_programs()]
     jobs += [('tex_%s_%s' % (tag, a[0]), src, a, 2, 200, False, 300000) for tag, src, a in gen_special.try_exit_programs()]
     jobs += [('%s_%s' % (tag, a[0]), src, a, 2, 200, False, 300000) for tag, src, a in gen_special.preempt_programs()]
+    # defeat calls where no Turing jump protects them (a handler, the you level, an ordinary function): the front end must refuse
+    # them; should one be accepted it is run like any other program - and would halt on the committed timeline
+    dpre = 'int !checked(int x) { !truth_is_defeat(x > 9); return x * 2; }\nempty !boom(int x) { !truth_is_defeat(x > 9); }\n'
+    forbidden = ['empty @is_you(int n) { try { !truth_is_defeat(n > 4); write(\'s\'); } undo { int m = !checked(n); write(m); } }',
+                 'empty @is_you(int n) { try { !truth_is_defeat(n > 4); write(\'s\'); } stop { write(!checked(n)); } }',
+                 'int @f(int n) { try { !truth_is_defeat(n > 4); return 1; } stop { return !checked(n); } }\nempty @is_you(int n) { write(@f(n)); }',
+                 'empty @is_you(int n) { try { write(\'s\'); } undo { if (!checked(n) > 3) { write(\'h\'); } } }',
+                 'empty @is_you(int n) { int m = !checked(n); write(m); }', 'empty @is_you(int n) { !boom(n); write(\'x\'); }',
+                 'empty g(int n) { !boom(n); }\nempty @is_you(int n) { g(n); write(\'x\'); }',
+                 'empty @is_you(int n) { write(!checked(n) ?? 0); }', 'empty @is_you(int n) { try { write(\'s\'); } undo { try { !boom(n); } undo { } } }']
+    accepted = 0
+    for i, body in enumerate(forbidden):
+        for n in ('3', '12'):
+            try:
+                dump_ast.case('x', dpre + body, [n], w=2, s=200)
+                jobs.append(('forb%d_%s' % (i, n), dpre + body, [n], 2, 200, False, 300000)); accepted += 1
+            except Exception:
+                pass
+    ctx.stats['unprotected_defeat_calls_accepted'] = accepted
     tally, bad, res = suites.differential(ctx, jobs, None, kinds_bad=('HALT',), label='checked', must_compile_prefixes=('shd_', 'tex_', 'pre_'))
     # unchecked builds of the fault-free ones
     clean = [j for j in jobs if j[0] in res and 'vm' in res[j[0]] and res[j[0]]['vm'].outcome == 'terminal'
